@@ -22,6 +22,7 @@ func init() {
 		v := NewVariant(c)
 		w := v.World(c, true, 14)
 		w.Prologue(chain.PrologueCfg{Scale: v.Scale, Pool3: v.Pool3, W2A: v.W2A, W2B: v.W2B, Fee1: v.Fee1, Fee2: v.Fee2, Bond: v.Scale * 2})
+		v.Sweep(w)
 		u := w.Users
 		atom := func() math.LegacyDec { return w.Prices["ATOM"] }
 		S := v.Scale
@@ -59,6 +60,45 @@ func init() {
 			}
 		}
 		botAll()
+		// stop-loss hover: a large position whose stop-loss is just reached and small ones whose
+		// stop-loss is just not reached, all named in ONE stop-loss list, the large one first (closing
+		// it removes a visible share of the LP supply before the others are looked at)
+		hover := func() {
+			if w.Dead {
+				return
+			}
+			big, s1, s2 := u[7], u[8], u[9]
+			w.Step(5, w.Tx(big, &lptypes.MsgOpen{Creator: big.S(), CollateralAsset: "uusdc", CollateralAmount: math.NewInt(S / 15), AmmPoolId: 1, Leverage: chain.Dec("4"), StopLossPrice: math.LegacyZeroDec()}),
+				w.Tx(s1, &lptypes.MsgOpen{Creator: s1.S(), CollateralAsset: "uusdc", CollateralAmount: math.NewInt(S / 5000), AmmPoolId: 1, Leverage: chain.Dec("2"), StopLossPrice: math.LegacyZeroDec()}),
+				w.Tx(s2, &lptypes.MsgOpen{Creator: s2.S(), CollateralAsset: "uusdc", CollateralAmount: math.NewInt(S / 7000), AmmPoolId: 1, Leverage: chain.Dec("3"), StopLossPrice: math.LegacyZeroDec()}))
+			w.Step(4000) // past the 1 h lock
+			ctx := w.ReadCtx()
+			p1, ok := w.App.AmmKeeper.GetPool(ctx, 1)
+			if !ok {
+				return
+			}
+			lp, err := p1.LpTokenPrice(ctx, w.App.OracleKeeper, w.App.AccountedPoolKeeper)
+			if err != nil {
+				return
+			}
+			reqs := []*lptypes.PositionRequest{}
+			txs := []*chain.TxRecord{}
+			for i, a := range []*chain.Actor{big, s1, s2} {
+				ps, _, _ := w.App.LeveragelpKeeper.GetPositionsForAddress(ctx, a.Addr, nil)
+				if len(ps) == 0 {
+					continue
+				}
+				f := []string{"1.01", "0.99", "0.97"}[i]
+				txs = append(txs, w.Tx(a, &lptypes.MsgUpdateStopLoss{Creator: a.S(), Position: ps[len(ps)-1].Id, Price: lp.Mul(chain.Dec(f))}))
+				reqs = append(reqs, &lptypes.PositionRequest{Address: a.S(), Id: ps[len(ps)-1].Id})
+			}
+			w.Step(5, txs...)
+			if len(reqs) > 1 {
+				w.Step(5, w.Tx(bot, &lptypes.MsgClosePositions{Creator: bot.S(), StopLoss: reqs}))
+				c.Ev("stop_loss_hover_batches")
+			}
+		}
+		hover()
 		g := v.Gen(w, c, MixForced)
 		g.MaxTx = 8
 		g.Hostile = 0.3
